@@ -239,16 +239,18 @@ CHECKS = {
    text="Proof over generated data: the translator re-extracts every coefficient table (exact float64 values as integers over 2^K) "
         "and the declared order from /repo on every run; Lean theorems state, per method, that ALL rooted-tree order conditions "
         "up to the declared order hold to 1e-12 for the propagating weights, that abscissae equal row sums and that the estimator "
-        "weights are consistent (decide +kernel; native_decide for RK108, RK1412, RadauIIA19). Splitting schemes are checked as "
+        "weights are consistent (decide +kernel; native_decide for RK108, RK1412, RadauIIA19). The checker itself is PROVED sound for every "
+        "table (checkOrder_sound / accepted_order_covers_every_tree, by induction over the de-duplicated enumeration): an accepted check "
+        "implies the order condition for EVERY well-formed coloured tree in Butcher-product form with at most p vertices. Splitting schemes are checked as "
         "partitioned RK methods over alternating bicoloured trees. The Richardson table is modelled as coded and its weights are "
         "proved to sum to one and to annihilate exactly h^1..h^(R-2) (order max(p, R-1)). Partial: RadauIIA19 via trees to order 10 + "
         "simplifying assumptions B(19),C(10),D(9); RK1412 to order 12 in the quick tier (14 in thorough). Known findings: the two "
         "Nielsen splitting schemes (order 4, declared 7/6) and Richardson wrappers not raising the order.",
    note="Trusted: Lean kernel + compiler for the three native_decide theorems; translate.py; Butcher's theorem, P-series theory and "
         "Gragg's expansion are cited (the theorems prove the algebraic conditions for the code's coefficients); the enumeration "
-        "is sound for every tree by DVP.Trees.checkOrder_sound when that lemma is present (see DESIGN.md); that the code "
+        "is sound for every tree by DVP.Trees.checkOrder_sound (level sizes are additionally compared with OEIS A000081 on every run); that the code "
         "propagates with row 0 and extrapolates as modelled is tied by the correspondence runs of C01 (Richardson) and C02 (step).",
-   technique="Lean 4 proof by verified computation over tables regenerated from source (decide +kernel / native_decide) + Richardson table model with differential correspondence",
+   technique="Lean 4 proof: verified computation over tables regenerated from source (decide +kernel / native_decide) with a proved-sound checker (induction over the tree enumeration) + Richardson table model with differential correspondence",
    design="5 (C01)"),
  "C17": dict(
    text="Full proof: for every strictly increasing array of every length >= 1 over any linear order and every query, "
